@@ -378,26 +378,35 @@ Fixpoint accept (s : st) (tr : list obs) : N :=
 Fixpoint mem_nat (x : nat) (l : list nat) : bool :=
   match l with [] => false | y :: t => Nat.eqb x y || mem_nat x t end.
 
-Fixpoint oracle (lv cs ld orph : list nat) (tr : list obs) : N :=
+(* pcb: cancelled instances whose own close callback has not started yet; stale: members of pcb
+   that were in that state when the callback of a late destroy of ANOTHER instance ran - their
+   map entry may be gone already, so their own callback (by name) removes a successor's entry *)
+Fixpoint oracle_go (lv cs ld orph pcb stale : list nat) (tr : list obs) : N :=
   match tr with
   | [] => 0%N
   | o :: r =>
       match o_l o with
       | LNew i =>
           match lv with
-          | [] => oracle [i] cs ld orph r
+          | [] => oracle_go [i] cs ld orph pcb stale r
           | _ => if forallb (fun j => mem_nat j orph) lv then 4%N else 2%N
           end
-      | LCancelled i => oracle (rm i lv) cs ld (rm i orph) r
-      | LCloseBegin i => oracle lv (i :: cs) ld orph r
-      | LDBegin i => oracle lv cs (if mem_nat i cs then i :: ld else ld) orph r
-      | LCbStart i => oracle lv cs ld (if mem_nat i ld then rm i lv ++ orph else orph) r
+      | LCancelled i => oracle_go (rm i lv) cs ld (rm i orph) (i :: pcb) stale r
+      | LCloseBegin i => oracle_go lv (i :: cs) ld orph pcb stale r
+      | LDBegin i => oracle_go lv cs (if mem_nat i cs then i :: ld else ld) orph pcb stale r
+      | LCbStart i =>
+          if mem_nat i ld then
+            oracle_go lv cs ld (rm i lv ++ orph) (rm i pcb) (rm i pcb ++ stale) r
+          else if mem_nat i stale then   (* a displaced callback displaces further *)
+            oracle_go lv cs ld (rm i lv ++ orph) (rm i pcb) (rm i pcb ++ rm i stale) r
+          else oracle_go lv cs ld orph (rm i pcb) stale r
       | LReturn i =>
-          if negb (o_sampled o) || opt_nat_eqb (o_map o) (Some i) then oracle lv cs ld orph r
+          if negb (o_sampled o) || opt_nat_eqb (o_map o) (Some i) then oracle_go lv cs ld orph pcb stale r
           else if mem_nat i orph then 4%N else 3%N
-      | _ => oracle lv cs ld orph r
+      | _ => oracle_go lv cs ld orph pcb stale r
       end
   end.
+Definition oracle (lv cs ld orph : list nat) (tr : list obs) : N := oracle_go lv cs ld orph [] [] tr.
 
 (* c_trace: the forced part (replayed by the model); c_tail: events of the free-running drain
    (or of a stress run), on which only the oracle is evaluated *)
